@@ -1,7 +1,7 @@
 (* C04 proofs, part 5: one write-out from any state satisfying the invariant, then histories. *)
 From Coq Require Import List ZArith NArith Bool Arith Lia.
 From GoProbe.Base Require Import CorrLib.
-From GoProbe.C04 Require Import Model Proofs Proofs2 Proofs3 Proofs4.
+From GoProbe.C04 Require Import Model Proofs ProofsCols Proofs2 Proofs3 Proofs4.
 Import ListNotations.
 
 Lemma tot_eqb_refl x : tot_eqb x x = true.
@@ -9,55 +9,60 @@ Proof. destruct x; unfold tot_eqb; cbn. now rewrite !N.eqb_refl. Qed.
 Lemma otot_eqb_refl x : otot_eqb x x = true.
 Proof. destruct x; cbn; auto using tot_eqb_refl. Qed.
 
-Lemma Forall_flat_map {A B} (P : B -> Prop) (f : A -> list B) l : (forall x, Forall P (f x)) -> Forall P (flat_map f l).
-Proof. intros H. induction l; cbn; auto. apply Forall_app; auto. Qed.
-
-Lemma pre_cols p m w : Forall not_rename (flat_map (col_ops p m w) cols ++ col_closes p w).
-Proof.
-  apply Forall_app; split; apply Forall_flat_map; intros c.
-  - unfold col_ops. destruct (Nat.eqb _ _); [constructor|]. destruct (nth c (w_renc w) false); repeat constructor.
-  - destruct (Nat.eqb _ _); repeat constructor.
-Qed.
-Lemma pre_colops p m w : Forall not_rename (flat_map (col_ops p m w) cols).
-Proof.
-  apply Forall_flat_map; intros c. unfold col_ops. destruct (Nat.eqb _ _); [constructor|].
-  destruct (nth c (w_renc w) false); repeat constructor.
-Qed.
-Lemma pre_closes p w : Forall not_rename (col_closes p w).
-Proof. apply Forall_flat_map; intros c. destruct (Nat.eqb _ _); repeat constructor. Qed.
-Lemma pre_month s w : Forall not_rename (month_ops s w).
+Lemma safe_month p m s w : Forall (op_safe p m) (month_ops s w).
 Proof. unfold month_ops. destruct (has_up _ _); repeat constructor. Qed.
-Lemma pre_mkdir s w : Forall not_rename (mkdir_ops s w).
-Proof. unfold mkdir_ops. repeat (apply Forall_app; split); try (destruct (has_up _ _)); repeat constructor. Qed.
-
-Ltac pre_tac := repeat (apply Forall_app; split);
-  auto using pre_month, pre_mkdir, pre_colops, pre_closes;
-  try unfold col_ops;
-  repeat first [ match goal with |- Forall _ (if ?c then _ else _) => destruct c end
-               | apply Forall_app; split | constructor ].
-
-(* a write-out = operations that are no renames, after which the day directory exists, then the commit tail *)
-Lemma wo_split P s a w p :
-  Forall not_rename P -> Inv s a -> (exists d, day_at (apply_all s P) p = Some d) ->
-  dp_key p = w_key w -> put_ok a w = true ->
-  let ops := P ++ commit_ops p (cur_meta a (w_key w)) w in
-  (forall k, outcome ops k (apply_all s (firstn k ops)) a w) /\ Inv (apply_all s ops) (adb_put a w).
+Lemma safe_closes p0 m p w : Forall (op_safe p0 m) (col_closes p w).
+Proof. apply Forall_flat_map_in; intros c _. destruct (Nat.eqb _ _); repeat constructor. Qed.
+Lemma closes_nowrite p w c : Forall (fun o => ~ writes_col o c) (col_closes p w).
+Proof. apply Forall_flat_map_in; intros c' _. destruct (Nat.eqb _ _); repeat constructor; cbn; auto. Qed.
+Lemma safe_colops p m w : Forall (op_safe p m) (flat_map (col_ops p m w) cols).
+Proof. apply Forall_flat_map_in; intros c Hc. apply col_ops_safe. now apply in_cols. Qed.
+Lemma safe_mkdir p m s w : dp_key p = w_key w -> m = new_meta -> Forall (op_safe p m) (mkdir_ops s w).
 Proof.
-  intros F I [d D] K PO ops.
-  assert (I1 : Inv (apply_all s P) a) by (apply pre_run; auto).
-  destruct (commit_tail P _ _ _ _ _ I1 D K PO) as [CT CF].
-  split.
-  - intros k. unfold ops. rewrite firstn_app, apply_all_app.
-    destruct (Nat.le_gt_cases k (length P)) as [LE|GT].
-    + replace (k - length P) with 0 by lia. cbn [firstn apply_all fold_left]. left. now apply pre_prefix.
-    + rewrite firstn_all2 by lia. replace k with (length P + (k - length P)) at 1 by lia. apply CT.
-  - unfold ops. rewrite apply_all_app. exact CF.
+  intros K E. unfold mkdir_ops. repeat (apply Forall_app; split); try (destruct (has_up _ _)); repeat constructor.
+  cbn. auto.
 Qed.
 
-Lemma all_pre_outcome ops s a w : Forall not_rename ops -> Inv s a -> adb_put a w = a ->
+(* a write-out = safe operations P1 after which the day directory exists, the column phase, the commit tail *)
+Lemma wo_split P1 s a w p :
+  let m0 := cur_meta a (w_key w) in
+  Forall (op_safe p m0) P1 -> Inv s a -> mstate s p m0 -> (exists d, day_at (apply_all s P1) p = Some d) ->
+  dp_key p = w_key w -> put_ok a w = true -> wf_w w ->
+  let ops := (P1 ++ flat_map (col_ops p m0 w) cols ++ col_closes p w) ++ commit_ops p m0 w in
   (forall k, outcome ops k (apply_all s (firstn k ops)) a w) /\ Inv (apply_all s ops) (adb_put a w).
 Proof.
-  intros F I E. split; [intros k; left; now apply pre_prefix|]. rewrite E. now apply pre_run.
+  intros m0 F1 I MS [d D] K PO WF ops.
+  set (P := P1 ++ flat_map (col_ops p m0 w) cols ++ col_closes p w).
+  assert (F : Forall (op_safe p m0) P).
+  { unfold P. apply Forall_app; split; [exact F1|apply Forall_app; split; [apply safe_colops|apply safe_closes]]. }
+  destruct (run_safe None p m0 P F s a I MS) as (I1 & MS1 & _).
+  (* the new blocks are in place after the column phase and survive the closes *)
+  destruct (run_safe None p m0 P1 F1 s a I MS) as (IP1 & MP1 & _).
+  assert (NBs : forall c, c < ncols -> nb (apply_all s P) p m0 w c).
+  { intros c Hc. unfold P. rewrite !apply_all_app.
+    apply (nb_kept None p m0 w c _ _ a); auto using safe_closes, closes_nowrite.
+    - apply (run_inv None p m0); auto using safe_colops.
+    - apply (run_safe None p m0 _ (safe_colops p m0 w) _ a IP1 MP1).
+    - apply (cols_phase None p m0 w cols) with (a := a); eauto.
+      + apply seq_NoDup.
+      + intros c0. apply in_cols.
+      + now apply in_cols. }
+  destruct (NBs 0 ltac:(unfold ncols; lia)) as (d1 & D1 & _).
+  assert (NB1 : forall c, c < ncols -> read_col d1 c (nth c (m_cur m0) 0) (w_len w c) = Some (blk w c)).
+  { intros c Hc. destruct (NBs c Hc) as (d' & D' & R). congruence. }
+  destruct (commit_tail P _ _ _ _ _ I1 D1 K PO MS1 WF NB1) as [CT CF].
+  split.
+  - intros k. unfold ops. fold P. rewrite firstn_app, apply_all_app.
+    destruct (Nat.le_gt_cases k (length P)) as [LE|GT].
+    + replace (k - length P) with 0 by lia. cbn [firstn apply_all fold_left]. left. now apply (safe_prefix None p m0).
+    + rewrite firstn_all2 by lia. replace k with (length P + (k - length P)) at 1 by lia. apply CT.
+  - unfold ops. fold P. rewrite apply_all_app. exact CF.
+Qed.
+
+Lemma all_safe_outcome p m ops s a w : Forall (op_safe p m) ops -> Inv s a -> mstate s p m -> adb_put a w = a ->
+  (forall k, outcome ops k (apply_all s (firstn k ops)) a w) /\ Inv (apply_all s ops) (adb_put a w).
+Proof.
+  intros F I MS E. split; [intros k; left; now apply (safe_prefix None p m)|]. rewrite E. now apply (run_inv None p m).
 Qed.
 
 Lemma mkdir_creates s w : lookup (w_key w) (f_days s) = None ->
@@ -77,29 +82,36 @@ Proof.
   exists day_empty. unfold day_at; cbn [f_days dp_key dp_suf]. rewrite lookup_ins_same by auto. reflexivity.
 Qed.
 
-Lemma wo_prefix s a w : Inv s a ->
+
+Lemma wo_prefix s a w : Inv s a -> wf_w w ->
   let ops := writeout_ops s w in
   (forall k, outcome ops k (apply_all s (firstn k ops)) a w) /\ Inv (apply_all s ops) (adb_put a w).
 Proof.
-  intros I. pose proof (inv_lookup _ _ _ (w_key w) I) as IL.
+  intros I WF. pose proof (inv_lookup _ _ _ (w_key w) I) as IL.
   unfold writeout_ops, writeout_run.
   destruct (lookup (w_key w) (f_days s)) as [d|] eqn:L.
-  - assert (DA : day_at s {| dp_key := w_key w; dp_suf := d_suf d |} = Some d).
-    { unfold day_at; cbn [dp_key dp_suf]. now rewrite L, otot_eqb_refl. }
+  - set (p := {| dp_key := w_key w; dp_suf := d_suf d |}).
+    assert (DA : day_at s p = Some d).
+    { unfold day_at, p; cbn [dp_key dp_suf]. now rewrite L, otot_eqb_refl. }
     destruct (d_meta d) as [[m|]|] eqn:M.
     + (* the day has metadata *)
       destruct (lookup (w_key w) a) as [bl|] eqn:La.
       2:{ unfold visible in IL. rewrite M in IL. destruct (d_suf d); discriminate. }
       destruct IL as [_ (NE & HM & _)]. rewrite M in HM. injection HM as ->.
+      assert (MS : mstate s p (meta_of bl)) by (eapply mstate_at; eauto).
       rewrite meta_has_ts_of. destruct (existsb _ bl) eqn:EX; cbn [fst].
-      * apply all_pre_outcome; auto.
-        -- pre_tac.
+      * apply (all_safe_outcome p (meta_of bl)); auto.
+        -- apply Forall_app; split; [apply safe_month|repeat constructor].
         -- unfold adb_put. now rewrite La, EX.
-      * replace (meta_of bl) with (cur_meta a (w_key w)) by (unfold cur_meta; now rewrite La).
-        rewrite !app_assoc.
+      * assert (CM : cur_meta a (w_key w) = meta_of bl) by (unfold cur_meta; now rewrite La).
+        rewrite <- CM in *.
+        match goal with |- context [?A ++ ?B ++ ?Cs ++ ?Cl ++ ?Cm] =>
+          replace (A ++ B ++ Cs ++ Cl ++ Cm) with (((A ++ B) ++ Cs ++ Cl) ++ Cm) by (now rewrite <- !app_assoc) end.
         apply wo_split; auto.
-        -- pre_tac.
-        -- eapply pre_run in DA as (d' & D' & _); eauto. pre_tac.
+        -- apply Forall_app; split; [apply safe_month|repeat constructor].
+        -- assert (F : Forall (op_safe p (cur_meta a (w_key w))) (month_ops s w ++ [OOpenR (RMeta p); OClose (RMeta p)]))
+             by (apply Forall_app; split; [apply safe_month|repeat constructor]).
+           destruct (run_safe None p _ _ F s a I MS) as (_ & _ & KK). destruct (KK _ _ DA) as (d' & D' & _). eauto.
         -- unfold put_ok. now rewrite La, EX.
     + (* undecodable metadata cannot occur under the invariant *)
       exfalso. destruct (lookup (w_key w) a).
@@ -108,32 +120,47 @@ Proof.
     + (* directory without metadata *)
       destruct (lookup (w_key w) a) as [bl|] eqn:La.
       { destruct IL as [_ (_ & HM & _)]. congruence. }
-      cbn [fst]. replace new_meta with (cur_meta a (w_key w)) by (unfold cur_meta; now rewrite La).
-      rewrite !app_assoc.
+      cbn [fst].
+      assert (CM : cur_meta a (w_key w) = new_meta) by (unfold cur_meta; now rewrite La).
+      rewrite <- CM in *.
+      assert (MS : mstate s p (cur_meta a (w_key w))).
+      { intros d' D'. assert (d' = d) as -> by congruence. right. auto. }
+      match goal with |- context [?A ++ ?B ++ ?Cs ++ ?Cl ++ ?Cm] =>
+        replace (A ++ B ++ Cs ++ Cl ++ Cm) with (((A ++ B) ++ Cs ++ Cl) ++ Cm) by (now rewrite <- !app_assoc) end.
       apply wo_split; auto.
-      * pre_tac.
-      * eapply pre_run in DA as (d' & D' & _); eauto. pre_tac.
+      * apply Forall_app; split; [apply safe_month|repeat constructor].
+      * assert (F : Forall (op_safe p (cur_meta a (w_key w))) (month_ops s w ++ [OOpenR (RMeta p)]))
+          by (apply Forall_app; split; [apply safe_month|repeat constructor]).
+        destruct (run_safe None p _ _ F s a I MS) as (_ & _ & KK). destruct (KK _ _ DA) as (d' & D' & _). eauto.
       * unfold put_ok. now rewrite La.
   - (* no directory for that day *)
     destruct (lookup (w_key w) a) as [bl|] eqn:La; [contradiction|].
-    cbn [fst]. replace new_meta with (cur_meta a (w_key w)) by (unfold cur_meta; now rewrite La).
-    rewrite !app_assoc.
+    cbn [fst]. set (p := {| dp_key := w_key w; dp_suf := None |}).
+    assert (CM : cur_meta a (w_key w) = new_meta) by (unfold cur_meta; now rewrite La).
+    rewrite <- CM in *.
+    assert (MS : mstate s p (cur_meta a (w_key w))).
+    { intros d' D'. unfold day_at, p in D'; cbn [dp_key] in D'. rewrite L in D'. discriminate. }
+    match goal with |- context [?A ++ ?Mk ++ ?B ++ ?Cs ++ ?Cl ++ ?Cm] =>
+      replace (A ++ Mk ++ B ++ Cs ++ Cl ++ Cm) with ((((A ++ Mk) ++ B) ++ Cs ++ Cl) ++ Cm) by (now rewrite <- !app_assoc) end.
+    assert (F : Forall (op_safe p (cur_meta a (w_key w))) ((month_ops s w ++ mkdir_ops s w) ++ [OOpenR (RMeta p)])).
+    { apply Forall_app; split; [apply Forall_app; split; [apply safe_month|apply safe_mkdir; auto]|repeat constructor]. }
     apply wo_split; auto.
-    + pre_tac.
-    + destruct (mkdir_creates s w L) as [d0 D0].
-      rewrite <- !app_assoc. rewrite app_assoc. rewrite apply_all_app.
-      assert (I1 : Inv (apply_all s (month_ops s w ++ mkdir_ops s w)) a).
-      { apply pre_run; auto. pre_tac. }
-      eapply pre_run in D0 as (d' & D' & _); eauto. pre_tac.
+    + destruct (mkdir_creates s w L) as [d0 D0]. fold p in D0.
+      rewrite apply_all_app.
+      assert (F1 : Forall (op_safe p (cur_meta a (w_key w))) (month_ops s w ++ mkdir_ops s w)).
+      { apply Forall_app; split; [apply safe_month|apply safe_mkdir; auto]. }
+      destruct (run_safe None p _ _ F1 s a I MS) as (I1 & M1 & _).
+      assert (F2 : Forall (op_safe p (cur_meta a (w_key w))) [OOpenR (RMeta p)]) by (repeat constructor).
+      destruct (run_safe None p _ _ F2 _ a I1 M1) as (_ & _ & KK). destruct (KK _ _ D0) as (d' & D' & _). eauto.
     + unfold put_ok. now rewrite La.
 Qed.
 
 (* ------------------------------------------------------------------ histories *)
 Definition spec_db (a : adb) (ws : list writeout) : adb := fold_left adb_put ws a.
 
-Lemma hist_full ws : forall s a, Inv s a -> Inv (hist_state s ws) (spec_db a ws).
+Lemma hist_full ws : Forall wf_w ws -> forall s a, Inv s a -> Inv (hist_state s ws) (spec_db a ws).
 Proof.
-  induction ws as [|w r IH]; intros s a I; cbn; auto.
+  induction 1 as [|w r WF F IH]; intros s a I; cbn; auto.
   apply IH. now apply wo_prefix.
 Qed.
 
@@ -144,19 +171,19 @@ Proof. intros L. unfold stale_point. now rewrite nth_error_app2. Qed.
 Lemma stale_lt ops k : stale_point ops k = true -> k < length ops.
 Proof. unfold stale_point. destruct (nth_error ops k) eqn:E; [|discriminate]. intros _. apply nth_error_Some. congruence. Qed.
 
-Lemma hist_prefix ws : forall s a k, Inv s a -> k <= length (hist_ops s ws) ->
+Lemma hist_prefix ws : Forall wf_w ws -> forall s a k, Inv s a -> k <= length (hist_ops s ws) ->
   stale_point (hist_ops s ws) k = false ->
   exists j, (j = completed s ws k \/ j = S (completed s ws k)) /\ j <= length ws /\
             Inv (apply_all s (firstn k (hist_ops s ws))) (spec_db a (firstn j ws)).
 Proof.
-  induction ws as [|w r IH]; intros s a k I LE NS; cbn [hist_ops completed] in *.
+  induction 1 as [|w r WF F IH]; intros s a k I LE NS; cbn [hist_ops completed] in *.
   - exists 0. cbn. replace k with 0 by (cbn in LE; lia). cbn. auto.
-  - destruct (wo_prefix s a w I) as [WP WF].
+  - destruct (wo_prefix s a w I WF) as [WP WF'].
     set (O := writeout_ops s w) in *. set (s' := apply_all s O) in *.
     destruct (Nat.leb (length O) k) eqn:LK.
     + apply Nat.leb_le in LK. rewrite stale_app_r in NS by auto.
       rewrite app_length in LE.
-      destruct (IH s' (adb_put a w) (k - length O) WF ltac:(lia) NS) as (j & HJ & HL & HI).
+      destruct (IH s' (adb_put a w) (k - length O) WF' ltac:(lia) NS) as (j & HJ & HL & HI).
       exists (S j). split; [destruct HJ as [->| ->]; auto|]. split; [cbn; lia|].
       rewrite firstn_app, firstn_all2, apply_all_app by lia. exact HI.
     + apply Nat.leb_gt in LK. rewrite stale_app_l in NS by auto.
@@ -170,34 +197,28 @@ Qed.
 Lemma inv_empty : Inv fs_empty [].
 Proof. split; constructor. Qed.
 
-Lemma crash_consistent ws k :
+Lemma crash_consistent ws k : Forall wf_w ws ->
   k <= length (hist_ops fs_empty ws) ->
   stale_point (hist_ops fs_empty ws) k = false ->
   exists j, (j = completed fs_empty ws k \/ j = S (completed fs_empty ws k)) /\ j <= length ws /\
-    reader_meta (apply_all fs_empty (firstn k (hist_ops fs_empty ws))) = Ok (spec_read_m (spec_db [] (firstn j ws))).
+    reader (apply_all fs_empty (firstn k (hist_ops fs_empty ws))) = Ok (spec_read_f (spec_db [] (firstn j ws))).
 Proof.
-  intros LE NS. destruct (hist_prefix ws fs_empty [] k inv_empty LE NS) as (j & HJ & HL & HI).
+  intros WF LE NS. destruct (hist_prefix ws WF fs_empty [] k inv_empty LE NS) as (j & HJ & HL & HI).
   exists j. repeat split; auto. now apply reader_ok.
 Qed.
 
 Lemma spec_db_app a l1 l2 : spec_db a (l1 ++ l2) = spec_db (spec_db a l1) l2.
 Proof. unfold spec_db. now rewrite fold_left_app. Qed.
 
-Lemma recovers ws k ws' :
+Lemma recovers ws k ws' : Forall wf_w ws -> Forall wf_w ws' ->
   k <= length (hist_ops fs_empty ws) ->
   stale_point (hist_ops fs_empty ws) k = false ->
   exists j, (j = completed fs_empty ws k \/ j = S (completed fs_empty ws k)) /\ j <= length ws /\
-    reader_meta (hist_state (apply_all fs_empty (firstn k (hist_ops fs_empty ws))) ws')
-    = Ok (spec_read_m (spec_db [] (firstn j ws ++ ws'))).
+    reader (hist_state (apply_all fs_empty (firstn k (hist_ops fs_empty ws))) ws')
+    = Ok (spec_read_f (spec_db [] (firstn j ws ++ ws'))).
 Proof.
-  intros LE NS. destruct (hist_prefix ws fs_empty [] k inv_empty LE NS) as (j & HJ & HL & HI).
+  intros WF WF' LE NS. destruct (hist_prefix ws WF fs_empty [] k inv_empty LE NS) as (j & HJ & HL & HI).
   exists j. repeat split; auto. apply reader_ok. rewrite spec_db_app. now apply hist_full.
-Qed.
-
-Lemma write_at_prefix old off data : off <= length old -> firstn off (write_at old off data) = firstn off old.
-Proof.
-  intros L. unfold write_at. rewrite firstn_app. rewrite firstn_length, Nat.min_l by lia.
-  rewrite Nat.sub_diag. cbn [firstn]. rewrite app_nil_r. now rewrite firstn_firstn, Nat.min_id.
 Qed.
 
 (* the refutation witness: two write-outs to one day, killed between the two renames of the second *)
@@ -215,11 +236,20 @@ Definition ex_k : nat :=
      | _ :: r => go r (S i) seen
      end) (hist_ops fs_empty ex_ws) 0 0.
 
-Lemma stale_refuted : exists ws k,
+Lemma ex_wf : Forall wf_w ex_ws.
+Proof. repeat constructor; unfold wf_w; cbn; lia. Qed.
+
+Lemma stale_refuted : exists ws k, Forall wf_w ws /\
   k <= length (hist_ops fs_empty ws) /\
   forall j, j <= length ws ->
-    reader_meta (apply_all fs_empty (firstn k (hist_ops fs_empty ws))) <> Ok (spec_read_m (spec_db [] (firstn j ws))).
+    reader (apply_all fs_empty (firstn k (hist_ops fs_empty ws))) <> Ok (spec_read_f (spec_db [] (firstn j ws))).
 Proof.
-  exists ex_ws, ex_k. split; [vm_compute; lia|].
+  exists ex_ws, ex_k. split; [exact ex_wf|]. split; [vm_compute; lia|].
   intros j Hj. assert (j = 0 \/ j = 1 \/ j = 2) as [->|[->| ->]] by (cbn in Hj; lia); vm_compute; discriminate.
+Qed.
+
+Lemma write_at_prefix old off data : off <= length old -> firstn off (write_at old off data) = firstn off old.
+Proof.
+  intros L. unfold write_at. rewrite firstn_app. rewrite firstn_length, Nat.min_l by lia.
+  rewrite Nat.sub_diag. cbn [firstn]. rewrite app_nil_r. now rewrite firstn_firstn, Nat.min_id.
 Qed.
